@@ -66,6 +66,8 @@ var (
 //verif:model (*github.com/cockroachdb/pebble.Batch).Set = vmBatchSet
 //verif:model (*github.com/cockroachdb/pebble.Batch).Delete = vmBatchDelete
 //verif:model (*github.com/cockroachdb/pebble.Batch).Commit = vmBatchCommit
+//verif:model (*github.com/cockroachdb/pebble.DB).Set = vmDBSet
+//verif:model (*github.com/cockroachdb/pebble.DB).Delete = vmDBDelete
 //verif:model (*github.com/cockroachdb/pebble.Iterator).Last = vmIterLast
 //verif:model (*github.com/cockroachdb/pebble.Iterator).Prev = vmIterPrev
 //verif:model (*github.com/cockroachdb/pebble.Iterator).Valid = vmIterValid
@@ -127,6 +129,19 @@ func vmBatchCommit(b *pebble.Batch, o *pebble.WriteOptions) error {
 		kv.dead = true
 	}
 	return nil
+}
+
+// DB.Set / DB.Delete: a batch of one operation, i.e. a commit boundary of its own.
+func vmDBSet(db *pebble.DB, key, val []byte, o *pebble.WriteOptions) error {
+	b := vmDBNewBatch(db)
+	vmBatchSet(b, key, val, o)
+	return vmBatchCommit(b, o)
+}
+
+func vmDBDelete(db *pebble.DB, key []byte, o *pebble.WriteOptions) error {
+	b := vmDBNewBatch(db)
+	vmBatchDelete(b, key, o)
+	return vmBatchCommit(b, o)
 }
 
 var vhErrCrashed = storage.ErrContentNotFound
